@@ -350,11 +350,19 @@ def unsubOut (d : DataLog) (subs : List String) (out : Outgoing) (filter : Strin
   | none => out
   | some fi => out.forgetCursors fi
 
-/-- `retransmission_map`: first cursor per filter index among inflight entries that have one -/
+/-- tuple order of `(u64, u64)`: `Ord::min` of two cursors -/
+def cursorMin (a b : Cursor) : Cursor :=
+  if a.1 < b.1 || (a.1 == b.1 && a.2 ≤ b.2) then a else b
+
+/-- `retransmission_map`: the LEAST cursor per filter index among inflight entries that have one
+    (usually the first one in window order, but entries handed back to a shared group are
+    forwarded again behind later ones) -/
 def retransmissionMap : List (Nat × Nat × Option Cursor) → List (Nat × Cursor) → List (Nat × Cursor)
   | [], acc => acc
   | (_, fi, some c) :: rest, acc =>
-    if (nlookup fi acc).isSome then retransmissionMap rest acc else retransmissionMap rest (acc ++ [(fi, c)])
+    match nlookup fi acc with
+    | some least => retransmissionMap rest (acc.map (fun p => if p.1 = fi then (fi, cursorMin least c) else p))
+    | none => retransmissionMap rest (acc ++ [(fi, c)])
   | (_, _, none) :: rest, acc => retransmissionMap rest acc
 
 /-! ### broker topic aliases -/
